@@ -311,10 +311,10 @@ pub fn run(ctx: &Ctx) -> PropResult {
     let a_node = root.child("A").expect("node A");
     let ab_node = a_node.child("B").expect("node A:B");
     let starts: Vec<(&'static str, &'static Node)> = vec![("root", root), ("A", a_node), ("A:B", ab_node)];
-    let pz = ctx.iface("pzoo");
+
     let a = ALPHABET.len();
     let n_ex = a * a;
-    let mut all: Vec<&'static IfaceDesc> = vec![mini, pz];
+    let mut all: Vec<&'static IfaceDesc> = ctx.built(&["mini", "pzoo"]);
     all.extend(ctx.random_ifaces());
     let rand_shards = 32usize;
     let rand_cases = ctx.scaled(if ctx.thorough { 40_000 } else { 4_000 });
